@@ -19,6 +19,7 @@ ASSUMED of them (`EvalGen.PrimsFor P env n size`, hypotheses of every theorem be
   * `Element.Exp(x, n) = xⁿ` for the vector length `n`, and `Exp(gen_size, k) = gen_size^k` for EVERY integer `k`, negative ones through
     `env.genInvOf size` (C01_expgen is the theorem about `Exp`);
   * `bits.Reverse64(uint64(j)) >> (64 - bits.TrailingZeros(uint(n)))` is the model's `bitrev (log2 n) j` for `j < n` (`EvalGen.RevSpec`);
+    `C20evalgen_revSpec_of_bits` derives it for `n = 2^m`, `m ≤ 63` from "Reverse64 reverses the 64 bits" and "TrailingZeros(2^m) = m";
   * Go's 64-bit `int` does not overflow (Int is unbounded); out-of-range reads are not panics (they read 0).
 
 ABSTRACTION: `EvalGen.toGen p` (model object ↦ Go struct: coefficient vector, Basis / Layout constants 1,2,4 / 8,16 read from the const
@@ -66,6 +67,17 @@ theorem C20evalgen_getCoeff_index (P : Prims R) (d : Domain R) (p : Poly R) (a :
       ((((i : Int) + ((2^d.m / p.size : Nat) : Int) * p.shift) % ((2^d.m : Nat) : Int)).toNat) 0 := by
   rw [P.GetCoeff_eq p (fun _ => by rw [h.length]; exact hrev) i, C20_getCoeff_index d p a h i]
 
+/-- **the bit-level meaning of `bits.Reverse64` / `bits.TrailingZeros` gives `RevSpec`**: if `Reverse64` reverses the 64 bits (the model's
+    `bitrev 64`) and `TrailingZeros(2^m) = m`, the BitReverse index expression `Reverse64(uint64(j)) >> (64 - TrailingZeros(uint(n)))` is the
+    model's `bitrev m j` for every `j < n = 2^m`, `m ≤ 63` -/
+theorem C20evalgen_revSpec_of_bits (rev64 tz : Int → Int) (m : Nat) (hm : m ≤ 63)
+    (hrev : ∀ j : Nat, j < 2^64 → rev64 (j : Int) = (bitrev 64 j : Int))
+    (htz : tz ((2^m : Nat) : Int) = (m : Int)) : RevSpec rev64 tz (2^m) := revSpec_of_bits rev64 tz m hm hrev htz
+
+example (m : Nat) (hm : m ≤ 63) : RevSpec (fun j => (bitrev 64 j.toNat : Int)) (fun z => (z.toNat.log2 : Int)) (2^m) :=
+  C20evalgen_revSpec_of_bits _ _ m hm (fun j _ => by simp)
+    (by show ((((2^m : Nat) : Int).toNat.log2 : Nat) : Int) = (m : Int); rw [Int.toNat_natCast, Nat.log2_two_pow])
+
 end Ring
 
 /-! ### non-vacuity: concrete primitives over `ZMod 5`, `n = 4`, `ω = 2` (the C20 example environment `exEnv`) -/
@@ -86,7 +98,7 @@ noncomputable def exPrims : Prims (ZMod 5) where
 
 theorem exRevSpec : RevSpec exPrims.rev64 exPrims.tz 4 := by
   intro j hj
-  interval_cases j <;> simp [exPrims, shr64, u64] <;> first | decide | (norm_num <;> decide)
+  interval_cases j <;> simp [exPrims, shr64, u64] <;> decide
 
 theorem exPrimsFor (size : Nat) : PrimsFor exPrims exEnv 4 size := by
   refine ⟨fun a b => rfl, fun a => rfl, rfl, fun k => ?_, exRevSpec, fun a => rfl, rfl, rfl, fun l => by simp [exEnv], rfl, ?_, fun y => ?_⟩
